@@ -1,4 +1,5 @@
 (* Model/Formats.v — outputs/formats/json_format.go (JSONFormatter, ValueToJson, AppendJSONString),
+   outputs/formats/human_readable_schema.go (WithoutQualifiers, applied by SetSchema of both formatters),
    outputs/formats/csv_format.go (CSVFormatter, FormatCSVValue) with encoding/csv's Writer (Go 1.23),
    strconv.AppendInt base 10; reference decoders for JSON (RFC 8259) and CSV (RFC 4180).
    Executable definitions only.  Bytes are Z in 0..255; a string is a list of bytes.
@@ -674,6 +675,35 @@ Fixpoint csv_p (s : list Z) (st : Z) : csv_res :=
   end.
 Definition csv_parse (s : list Z) : csv_res := csv_p s 0.
 
+(* ---------- SetSchema of both formatters: outputs/formats/human_readable_schema.go WithoutQualifiers ---------- *)
+(* strings.Contains(name, ".") ... strings.SplitN(name, ".", 2)[1]: what follows the first '.' *)
+Fixpoint after_dot (s : list Z) : option (list Z) :=
+  match s with
+  | [] => None
+  | c :: r => if c =? 46 then Some r else after_dot r
+  end.
+Definition short_name (n : list Z) : list Z := match after_dot n with Some r => r | None => n end.
+Definition bytes_eqb : list Z -> list Z -> bool := list_eqb Z.eqb.
+(* nameCount[short]: how many fields have this short name (Go map keys are compared byte-wise) *)
+Definition name_count (s : list Z) (shorts : list (list Z)) : nat := length (filter (bytes_eqb s) shorts).
+Definition out_name (shorts : list (list Z)) (n : list Z) : list Z :=
+  if Nat.eqb (name_count (short_name n) shorts) 1 then short_name n else n.
+Definition without_qualifiers (fields : list (list Z * fty)) : list (list Z * fty) :=
+  let shorts := map (fun f => short_name (fst f)) fields in
+  map (fun f => (out_name shorts (fst f), snd f)) fields.
+
+(* a whole run: SetSchema, then the records *)
+Definition json_run (fields : list (list Z * fty)) (rows : list (list fval)) : Z * list Z :=
+  json_file (without_qualifiers fields) rows.
+Definition csv_run (fields : list (list Z * fty)) (rows : list (list fval)) : Z * list Z :=
+  csv_file (without_qualifiers fields) rows.
+
+Fixpoint nodupb (l : list (list Z)) : bool :=
+  match l with
+  | [] => true
+  | x :: r => negb (existsb (bytes_eqb x) r) && nodupb r
+  end.
+
 (* ---------- the cases of engine c25 ---------- *)
 (* fields, rows, (status, bytes) observed from the JSON formatter, (status, bytes) observed from the CSV formatter *)
 Definition c25_case : Type := (list (list Z * fty) * list (list fval) * (Z * list Z) * (Z * list Z))%type.
@@ -687,9 +717,9 @@ Fixpoint forall2b {A B} (f : A -> B -> bool) (a : list A) (b : list B) : bool :=
 
 Definition obs_eqb (a b : Z * list Z) : bool := (fst a =? fst b) && list_eqb Z.eqb (snd a) (snd b).
 Definition c25_tie_json (c : c25_case) : bool :=
-  let '(fields, rows, oj, _) := c in obs_eqb (json_file fields rows) oj.
+  let '(fields, rows, oj, _) := c in obs_eqb (json_run fields rows) oj.
 Definition c25_tie_csv (c : c25_case) : bool :=
-  let '(fields, rows, _, oc) := c in obs_eqb (csv_file fields rows) oc.
+  let '(fields, rows, _, oc) := c in obs_eqb (csv_run fields rows) oc.
 
 Fixpoint split_lines (s : list Z) : list (list Z) :=        (* LF-terminated lines; a trailing fragment is kept *)
   match s with
@@ -732,9 +762,14 @@ Definition all_typed (fields : list (list Z * fty)) (rows : list (list fval)) : 
 
 (* the oracle on the bytes the implementation wrote: every line parses (reference parser) to the tree of its row;
    an error is legitimate only at a row holding a non-finite float, after the lines of the rows before it *)
+Definition keys_distinct (o : option json) : bool :=
+  match o with Some (JObj ms) => nodupb (map fst ms) | _ => false end.
 Definition c25_spec_json (c : c25_case) : bool :=
-  let '(fields, rows, (st, bytes), _) := c in
+  let '(fields0, rows, (st, bytes), _) := c in
+  let fields := without_qualifiers fields0 in
   all_typed fields rows &&
+  (* exactly one member per column: distinct columns keep distinct keys *)
+  (negb (nodupb (map fst fields0)) || forallb (fun l => keys_distinct (json_parse l)) (split_lines bytes)) &&
   let expect := if st =? 0 then rows else finite_prefix rows in
   ((st =? 0) && forallb row_finite rows || (st =? 1) && negb (forallb row_finite rows)) &&
   forall2b (fun l r => ojson_eqb (json_parse l) (JObj (row_jmembers fields r))) (split_lines bytes) expect.
@@ -764,8 +799,10 @@ Fixpoint nested_finite_prefix (rows : list (list fval)) : list (list fval) :=
   | [] => []
   end.
 Definition c25_spec_csv (c : c25_case) : bool :=
-  let '(fields, rows, _, (st, bytes)) := c in
+  let '(fields0, rows, _, (st, bytes)) := c in
+  let fields := without_qualifiers fields0 in
   all_typed fields rows &&
+  (negb (nodupb (map fst fields0)) || match csv_parse bytes with Some (hd :: _) => nodupb hd | _ => false end) &&
   let expect := if st =? 0 then rows else nested_finite_prefix rows in
   ((st =? 0) && forallb nested_finite rows || (st =? 1) && negb (forallb nested_finite rows)) &&
   match csv_parse bytes with
